@@ -777,7 +777,7 @@ def find_place_for_segments_in_memory(
     new_reference_counter[known_pos_in_memory] += 1
 
     to_upload_size = np.sum(new_segment_lengths[unknown] + 16)
-    free_points_in_total = total_capacity - np.sum(current_segment_capacities[current_segment_references > 0])
+    free_points_in_total = int(total_capacity) - int(np.sum(current_segment_capacities[current_segment_references > 0]))
     if free_points_in_total < to_upload_size:
         raise RuntimeError(f'Not enough free memory. Required {to_upload_size}. Available: {free_points_in_total}')
 
@@ -823,7 +823,7 @@ def find_place_for_segments_in_memory(
             to_amend[segment_idx] = False
             to_insert[segment_idx] = fitting_segment
 
-    free_points_at_end = total_capacity - np.sum(current_segment_capacities[:first_free])
+    free_points_at_end = int(total_capacity) - int(np.sum(current_segment_capacities[:first_free]))
     if np.sum(new_segment_lengths[to_amend] + 16) > free_points_at_end:
         raise RuntimeError('Fragmentation does not allow upload.',
                            np.sum(new_segment_lengths[to_amend] + 16),
